@@ -16,6 +16,8 @@ CANARIES = {
     "pw": b"S3cr3t-Canary-Passw0rd!",
     "plain": b"TOP-SECRET-PLAINTEXT-CANARY-0123",
     "credpw": b"Cr3dential-P@ss-Canary",
+    # a password that is not valid UTF-8 (a legacy client's Latin-1 / binary password), same length as credpw
+    "credbin": bytes.fromhex("c328a0a1e2f0ff8c9d3eb17a44c1e9f5aa0b7c6d5e4f"),
 }
 
 
@@ -179,6 +181,44 @@ def _history(args):
                                             "tainted": tainted(it["msg"], needles), "ops": "sweep:" + op, "text": it["msg"][:300]})
                     except Exception:
                         pass
+        # damaged credentials: the password item of a valid request replaced, at byte level, by a password that is not valid
+        # UTF-8, by a shorter / longer one, with another item type (the request then fails to parse - the failure is logged)
+        if wid < 4:
+            assert len(CANARIES["credbin"]) == len(CANARIES["credpw"])
+            for ver in G.VERSIONS:
+                req = D.one("Query", {}, ver=ver)
+                req["cred"] = ("alice", CANARIES["credpw"].decode())
+                try:
+                    good = A.encode(A.build_request(req, intern, now=int(D.CLOCK.now)), A.KV(tuple(ver)))
+                except Exception:
+                    continue
+                at = good.find(CANARIES["credpw"])
+                if at < 0:
+                    continue
+                variants = [good[:at] + CANARIES["credbin"] + good[at + len(CANARIES["credpw"]):]]
+                for typ in (1, 2, 5, 8, 9, 12):
+                    b = bytearray(variants[0] if typ % 2 else good)
+                    b[at - 5] = typ                      # the item type byte of the password
+                    variants.append(bytes(b))
+                for ln in (3, 21, 23, 64, 0x7fffffff):
+                    b = bytearray(variants[0])
+                    b[at - 4:at] = ln.to_bytes(4, "big")
+                    variants.append(bytes(b))
+                for data in variants:
+                    mark = len(cap.recs)
+                    conn = S.FakeConn(data, cert=cert)
+                    S.run_session(drv.engine, conn, via_run=(r.random() < 0.3))
+                    for (lvl, name, text) in cap.recs[mark:]:
+                        out.append({"id": "w%d.%d" % (wid, len(out)), "kind": "log", "level": lvl, "logger": name,
+                                    "tainted": tainted(text, needles), "ops": "credential-bytes", "text": text[:300] if tainted(text, needles) else ""})
+                    for resp in conn.sent:
+                        try:
+                            for it in A.abs_response(A.decode_response(resp), intern)["items"]:
+                                if it["msg"]:
+                                    out.append({"id": "w%d.%d" % (wid, len(out)), "kind": "message", "level": 0, "logger": "",
+                                                "tainted": tainted(it["msg"], needles), "ops": "credential-bytes", "text": it["msg"][:300]})
+                        except Exception:
+                            pass
         drv.close()
         # client side: library logs while talking to the in-process server, credentials from a configuration file
         mark = len(cap.recs)
@@ -213,6 +253,33 @@ def _history(args):
                             cl.get("999999")
                     except Exception:
                         pass
+            # responses that carry key material and are cut short / damaged on their way to the client: the client raises -
+            # and must not put what it had received into its log
+            for ver in [(1, 2), (2, 0)]:
+                sock0 = C.PipeSocket(drv2.engine)
+                cl0 = C.make_client(sock0, ver)
+                try:
+                    u = cl0.register(pobj.SymmetricKey(enums.CryptographicAlgorithm.AES, 256, CANARIES["k32"],
+                                                       masks=[enums.CryptographicUsageMask.ENCRYPT]))
+                except Exception:
+                    continue
+                probe = C.PipeSocket(drv2.engine)
+                try:
+                    C.make_client(probe, ver).get(u)
+                except Exception:
+                    pass
+                full = probe.responses[-1] if probe.responses else b""
+                cuts = sorted(set([5, 8, 9, len(full) // 2, len(full) - 20, len(full) - 8, len(full) - 1]))
+                tampers = [(lambda b, c=c: b[:c]) for c in cuts if 0 < c < len(full)]
+                tampers.append(lambda b: b[:12] + bytes([b[12] ^ 0x08]) + b[13:])            # a damaged type byte
+                tampers.append(lambda b: b[:4] + (len(b) + 64).to_bytes(4, "big") + b[8:])    # announces more than arrives
+                tampers.append(lambda b: b + b"\x00" * 8)
+                for tp in tampers:
+                    sock = C.PipeSocket(drv2.engine, tamper=tp, plan=[r.choice([1, 7, 8, 64, 10 ** 6]) for _ in range(8)] + [10 ** 6])
+                    try:
+                        C.make_client(sock, ver).get(u)
+                    except Exception:
+                        pass
         finally:
             drv2.close()
         for (lvl, name, text) in cap.recs[mark:]:
@@ -229,7 +296,9 @@ def check(run, tier):
                 "and salt run against a real KmipSession + KmipEngine (random requests of every operation in every version incl. "
                 "unsupported ones, cryptographic parameters over all algorithm / mode / padding combinations, damaged frames, "
                 "unauthenticated connections, run() and _handle_message_loop entry points) and through a real ProxyKmipClient "
-                "configured from a file holding the password; every log record of every logger (formatted, including exception "
+                "configured from a file holding the password; credentials damaged at byte level (a password that is not valid UTF-8, "
+                "other item types and lengths); Get responses carrying key material cut short / damaged on their way to the client; "
+                "every log record of every logger (formatted, including exception "
                 "text) and every result message is searched for each canary in 10 encodings; TraceC20.tla states the invariant "
                 "(no tainted record at level >= INFO, no tainted result message) and the positive control (the canary IS visible at "
                 "DEBUG). distinct = distinct (logger, level, operations) record classes.")
